@@ -153,7 +153,7 @@ namespace nmtools::utl
         vector(size_type N)
             : allocator{}
             , buffer_(allocator.allocate(N))
-            , size_(N)
+            , size_(0)
             , buffer_size_(N)
             , initialized(true)
         {
@@ -213,6 +213,7 @@ namespace nmtools::utl
             if (!buffer_) {
                 buffer_size_ = new_size;
                 buffer_ = allocator.allocate(new_size);
+                old_size = 0;
             } else if (buffer_size_ < new_size) {
                 buffer_size_ = new_size;
                 // TODO: error handling
@@ -224,6 +225,10 @@ namespace nmtools::utl
                 buffer_ = new_buffer;
             } else {
                 // not invalidating the value, for now
+            }
+            // elements added by growing are value-initialised, as std::vector::resize does
+            for (size_type i=old_size; i<new_size; i++) {
+                buffer_[i] = T{};
             }
         }
 
